@@ -14,6 +14,7 @@ import RosuModel.Model.SuspicionWire
 import RosuModel.Model.StackingWire
 import RosuModel.Model.LifeWire
 import RosuModel.Model.FiniteWire
+import RosuModel.Model.PerfCalcWire
 
 open Rosu
 
@@ -62,6 +63,7 @@ def handle (line : String) : String :=
   | ["LIFE", mode, objs, sig, hist] => Lifetime.handleLife mode objs sig hist
   | "GSQ" :: mode :: args => GenState.handleGSQ mode args
   | "C09" :: args => Finite.handleFinite args
+  | "PP" :: args => PerfCalc.handlePP args
   | _ => "bad-op"
 
 partial def loop (h : IO.FS.Stream) (out : IO.FS.Stream) : IO Unit := do
